@@ -181,6 +181,15 @@ def _child(plan, fd_in, fd_out, fd_err, fd_res):
                                       line_buffering=True)
         from sim import world as world_mod
         world = world_mod.World(plan, finish)
+        if plan.get('trace_stderr'):
+            # progress lines of the shell ('=== ...') become history events
+            class _Traced(io.TextIOWrapper):
+                def write(self, s, _w=world):
+                    _w.ev('stderr', text=s[:400])
+                    return super().write(s)
+            sys.stderr = _Traced(io.FileIO(2, 'w', closefd=False),
+                                 encoding='utf-8', errors='backslashreplace',
+                                 line_buffering=True)
         world.install()
     except BaseException:
         status = 'harness:setup:' + traceback.format_exc()
